@@ -18,10 +18,27 @@ static const char *tname[T_NT] = { "hash", "hmac", "hkdf", "pbkdf2", "aesblk", "
  * k key variant/length, x/y/z task specific (see the prim_* functions) */
 typedef struct { int t, g, n, m, a, b, i, o, k, x, y, z; } pc_t;
 
-static void pc_desc(const pc_t *p, char *out, size_t sz, const char *human)
+static void pc_desc(const pc_t *p, char *out, size_t sz, const char *fam, const char *human)
 {
-    snprintf(out, sz, "t=%s;g=%d;n=%d;m=%d;a=%d;b=%d;i=%d;o=%d;k=%d;x=%d;y=%d;z=%d (%s)", tname[p->t], p->g, p->n, p->m,
-        p->a, p->b, p->i, p->o, p->k, p->x, p->y, p->z, human);
+    snprintf(out, sz, "t=%s;g=%d;n=%d;m=%d;a=%d;b=%d;i=%d;o=%d;k=%d;x=%d;y=%d;z=%d;f=%s (%s)", tname[p->t], p->g, p->n, p->m,
+        p->a, p->b, p->i, p->o, p->k, p->x, p->y, p->z, fam, human);
+}
+
+/* family label recorded in a descriptor ("f=...") */
+static void pc_fam(const char *s, char *fam, size_t sz)
+{
+    const char *p = strstr(s, ";f=");
+    size_t k = 0;
+    fam[0] = 0;
+    if (!p)
+    {
+        return;
+    }
+    for (p += 3; *p && *p != ' ' && *p != ';' && k < sz - 1; p++)
+    {
+        fam[k++] = *p;
+    }
+    fam[k] = 0;
 }
 
 static int pc_parse(const char *s, pc_t *p)
@@ -177,6 +194,56 @@ static slot_t *g_slot;
 
 static int prim(const pc_t *pc, char *human, char *what); /* 0 equal, 1 VIOLATION, 2 correctly refused / don't care */
 
+/* ---------------------------------------------------------------- UBSan seam
+ * The library is built with -fsanitize=undefined -fno-sanitize-recover, i.e. the first undefined operation would abort
+ * the bundle child and hide everything behind it.  The executable therefore defines the __ubsan_handle_*_abort entry
+ * points itself (they take precedence over libubsan's): while a primitive is running the report is turned into a
+ * violation of that primitive (longjmp back to the caller, stable key "ubsan|file:line|kind"); anywhere else it aborts. */
+#include <setjmp.h>
+static jmp_buf ub_jb;
+static volatile int ub_armed;
+static char ub_where[160], ub_kind[40];
+typedef struct { const char *file; uint32_t line, col; } ub_loc_t;
+static void ub_hit(void *data, const char *kind)
+{
+    const ub_loc_t *l = data;
+    const char *f = l && l->file ? l->file : "?";
+    snprintf(ub_where, sizeof(ub_where), "%s:%u", f, l ? l->line : 0);
+    snprintf(ub_kind, sizeof(ub_kind), "%s", kind);
+    if (g_verbose || !ub_armed)
+    {
+        fprintf(stderr, "UBSan: %s at %s:%u:%u\n", kind, f, l ? l->line : 0, l ? l->col : 0);
+    }
+    if (ub_armed)
+    {
+        ub_armed = 0;
+        longjmp(ub_jb, 1);
+    }
+    abort();
+}
+#define UBH(name, kind) void __ubsan_handle_ ## name ## _abort(void *d, void *a, void *b); \
+    void __ubsan_handle_ ## name ## _abort(void *d, void *a, void *b) { (void) a; (void) b; ub_hit(d, kind); }
+UBH(add_overflow, "signed-overflow") UBH(sub_overflow, "signed-overflow") UBH(mul_overflow, "signed-overflow")
+UBH(negate_overflow, "signed-overflow") UBH(divrem_overflow, "division-overflow") UBH(shift_out_of_bounds, "shift-out-of-bounds")
+UBH(out_of_bounds, "index-out-of-bounds") UBH(type_mismatch_v1, "misaligned-or-null-access") UBH(pointer_overflow, "pointer-overflow")
+UBH(load_invalid_value, "invalid-value") UBH(nonnull_arg, "null-argument") UBH(vla_bound_not_positive, "vla-bound")
+UBH(float_cast_overflow, "float-cast") UBH(invalid_builtin, "invalid-builtin") UBH(builtin_unreachable, "unreachable")
+
+/* run one primitive with the seam armed: 3 = undefined behaviour reported inside the primitive */
+static int prim_guarded(const pc_t *pc, char *human, char *what)
+{
+    int r;
+    if (setjmp(ub_jb))
+    {
+        snprintf(what, 320, "UBSan: %s at %s inside the library while running %s", ub_kind, ub_where, human);
+        return 3;
+    }
+    ub_armed = 1;
+    r = prim(pc, human, what);
+    ub_armed = 0;
+    return r;
+}
+
 static famstat_t *fam_get(const char *fam)
 {
     int i;
@@ -196,7 +263,8 @@ static famstat_t *fam_get(const char *fam)
     return &B.f[MAXFAM - 1];
 }
 
-static const char *alg_label(const pc_t *pc); /* stable short algorithm label for keys/outcomes */
+static const char *alg_label(const pc_t *pc); /* stable algorithm label for violation keys */
+static const char *short_label(const pc_t *pc);
 
 static void chk(const pc_t *pc, const char *fam)
 {
@@ -222,7 +290,7 @@ static void chk(const pc_t *pc, const char *fam)
         snprintf((char *) g_slot->fam, sizeof(g_slot->fam), "%s", fam);
         g_slot->active = 1;
     }
-    r = prim(pc, human, what);
+    r = prim_guarded(pc, human, what);
     if (g_slot)
     {
         g_slot->active = 0;
@@ -233,18 +301,22 @@ static void chk(const pc_t *pc, const char *fam)
     {
         f->refused++;
     }
-    if (r == 1)
+    if (r == 1 || r == 3)
     {
         mx_result_t res;
         f->bad++;
         memset(&res, 0, sizeof(res));
-        pc_desc(pc, res.desc, sizeof(res.desc), human);
+        pc_desc(pc, res.desc, sizeof(res.desc), fam, human);
         res.violation = 1;
         res.nontrivial = 1;
         res.transitions = 1;
         snprintf(res.key, sizeof(res.key), "%s|len=%d|%s", alg_label(pc), pc->n, fam);
+        if (r == 3)
+        {
+            snprintf(res.key, sizeof(res.key), "ubsan|%s|%s", ub_where, ub_kind);
+        }
         snprintf(res.what, sizeof(res.what), "%s", what);
-        snprintf(res.outcome, sizeof(res.outcome), "%s:%s:MISMATCH", alg_label(pc), fam);
+        snprintf(res.outcome, sizeof(res.outcome), "%.30s:%.18s:%s", short_label(pc), fam, r == 3 ? "UBSAN" : "MISMATCH");
         res.trace_hash = fnv1a(res.key, strlen(res.key), FNV0);
         mx_record(&res);
     }
